@@ -178,7 +178,7 @@ var c06Exts = []struct {
 	aliases  []string
 	spareCap int
 }{
-	{"root<-prefix-foo, aliases cap>len", "root", 2, "x/r0", ".r0", []string{"x/r0-a"}, 2},
+	{"root<-prefix-foo, aliases cap>len", "root", 2, "x/r0", ".r0", []string{"x/r0-a", "X/R0-Legacy; v=1"}, 2},
 	{"text/plain<-prefix-foo, aliases cap==len", "text/plain", 2, "x/r1", ".r1", []string{"x/r1-a", "x/r1-b"}, 0},
 	{"x/r0(or root)<-always, no aliases", "x/r0", 1, "x/r2", ".r2", nil, 1},
 }
@@ -297,6 +297,9 @@ func c06DoOp(rec *c06Rec, clock func() int, point func(string)) {
 					rec.bad = fmt.Sprintf("extension %s observed with extension %q", e.name, m.Extension())
 				}
 				for _, a := range e.aliases {
+					if a != lowerASCII(a) || strings.Contains(a, ";") {
+						continue // not in normal form: only the caller's array is checked for it
+					}
 					if !m.Is(a) {
 						rec.bad = fmt.Sprintf("extension %s observed without its alias %s", e.name, a)
 					}
